@@ -21,8 +21,12 @@ META = {
              "and next-round views' available power is the sum of the view's own validator powers and the precommit block powers are the "
              "recomputation from the view's proofs (Properties/C06Mirror.v); the summary of both views of the REAL mirror is recomputed by "
              "a Coq monitor after every message of generated histories in which the validator set and its total power change at every "
-             "height; the sub-minority consequence is proved for one message on a fresh mirror (mirror_predict) and observed on "
-             "multi-message histories, not proved over all mirror histories.",
+             "height; and for EVERY history (Properties/C06Power.v): all seven summary fields of both views are the recomputation, the "
+             "totals over the DISTINCT signers; a vote message changes the round only with a stated cause (nil majority / all precommits "
+             "in / next-round minority; to the next or next-but-one round), and validators whose distinct power is below ByzantineMinority "
+             "cannot move the mirror at all (C06_minority_cannot_move_the_mirror; guard: sum of powers < 2^64, shown necessary); a rejected "
+             "replayed header leaves the state unchanged and an accepted one carries a majority certificate (after the repo fix found by "
+             "this proof).",
     "note": "Trusted: Coq kernel; the translator for tsi/step.go (cross-checked by the correspondence run); the hand-written model of "
             "votesummary.go/votedistribution.go/kernel.go comparisons (tied by differential execution on every run); "
             "bits-and-blooms/bitset and ed25519. The repo carries a fix: commit (totals from the union bitset); on the "
